@@ -1218,4 +1218,316 @@ theorem numDiffFields_some : ∀ (xs ys : Fields) (p : String) (a b : Dec),
         exact numDiff_some v w p' a' b' hn
 end
 
+/-! ## the history the monitor carries: which tool a call is judged by
+
+The monitor's state holds, per tool name, the Go types and OWN schemas of the tool (`MState.tys`) and the
+name added last (`MState.last`). The history invariant (`tys_booked`, `last_booked`): they are what the
+RECORDS say the implementation holds — the most recent `tool` record of that name that the implementation
+answered `ok` since the last `server`/`reset` record. `sound_trace`: a C16 clause raised on a `call` record
+after any list of records refutes the property for the call as addressed to THAT tool. -/
+
+/-- the monitor's state after a list of records -/
+def runState (d : MState) : List Rec → MState
+  | [] => d
+  | r :: rs => runState (mstep d r).1 rs
+
+/-- what the records (most recent first) say is registered under `n` on the current server -/
+def bookedRev : List Rec → String → Option (GoTy × GoTy × Schema × Option Schema)
+  | [], _ => none
+  | .reset :: _, _ => none
+  | .server _ :: _, _ => none
+  | .call _ _ _ _ _ :: rest, n => bookedRev rest n
+  | .tool t o :: rest, n =>
+    if o.isOk && t.name == n then some (t.ity, t.oty, t.ownIn, t.ownOut) else bookedRev rest n
+
+/-- the name the records (most recent first) say was added last on the current server -/
+def lastRev : List Rec → Option String
+  | [] => none
+  | .reset :: _ => none
+  | .server _ :: _ => none
+  | .call _ _ _ _ _ :: rest => lastRev rest
+  | .tool t o :: rest => if o.isOk then some t.name else lastRev rest
+
+def booked (tr : List Rec) (n : String) : Option (GoTy × GoTy × Schema × Option Schema) := bookedRev tr.reverse n
+def lastBooked (tr : List Rec) : Option String := lastRev tr.reverse
+
+theorem runState_append (d : MState) (l : List Rec) (r : Rec) : runState d (l ++ [r]) = (mstep (runState d l) r).1 := by
+  induction l generalizing d with
+  | nil => rfl
+  | cons x xs ih => simp only [List.cons_append, runState]; exact ih _
+
+theorem regTool_book (d : MState) (t : ToolEv) (o : ToolObs) :
+    (d.regTool t o).1.tys = (d.book t o).tys ∧ (d.regTool t o).1.last = (d.book t o).last := by
+  unfold MState.regTool
+  simp only []
+  split
+  · exact ⟨rfl, rfl⟩
+  · split
+    · exact ⟨rfl, rfl⟩
+    · split <;> exact ⟨rfl, rfl⟩
+
+theorem mstep_tool_book (d : MState) (t : ToolEv) (o : ToolObs) :
+    (mstep d (.tool t o)).1.tys = (d.book t o).tys ∧ (mstep d (.tool t o)).1.last = (d.book t o).last := by
+  have h := regTool_book d t o
+  simp only [mstep]
+  generalize d.regTool t o = r at h
+  obtain ⟨d', out⟩ := r
+  cases out <;> exact h
+
+theorem find?_filter_ne {α : Type} (l : List (String × α)) (a n : String) (h : (a == n) = false) :
+    (l.filter (·.1 != a)).find? (·.1 == n) = l.find? (·.1 == n) := by
+  induction l with
+  | nil => rfl
+  | cons x xs ih =>
+    simp only [List.filter_cons]
+    by_cases hx : (x.1 != a) = true
+    · simp only [hx, if_true, List.find?_cons, ih]
+    · simp only [hx, Bool.false_eq_true, if_false, List.find?_cons]
+      have hxa : x.1 = a := by simpa using hx
+      have : (x.1 == n) = false := by rw [hxa]; exact h
+      simp only [this, ih]
+
+/-- **the history invariant**: what the monitor has booked is what the records say -/
+theorem tys_booked (rtr : List Rec) (n : String) :
+    ((runState {} rtr.reverse).tys.find? (·.1 == n)).map (·.2) = bookedRev rtr n ∧
+    (runState {} rtr.reverse).last = lastRev rtr := by
+  induction rtr with
+  | nil => exact ⟨rfl, rfl⟩
+  | cons r rest ih =>
+    rw [List.reverse_cons, runState_append]
+    cases r with
+    | reset => exact ⟨rfl, rfl⟩
+    | server k => exact ⟨rfl, rfl⟩
+    | call name c o lib olib => rw [mstep_call_fst]; exact ih
+    | tool t o =>
+      obtain ⟨h1, h2⟩ := mstep_tool_book (runState {} rest.reverse) t o
+      rw [h1, h2]
+      unfold MState.book
+      cases ho : o.isOk with
+      | false => simp only [Bool.false_eq_true, if_false, bookedRev, lastRev, ho, Bool.false_and]; exact ih
+      | true =>
+        simp only [if_true, bookedRev, lastRev, ho, Bool.true_and, and_true]
+        cases hn : (t.name == n) with
+        | true => simp only [List.find?_cons, hn, if_true, Option.map_some]
+        | false =>
+          simp only [List.find?_cons, hn, Bool.false_eq_true, if_false]
+          rw [find?_filter_ne _ _ _ hn]
+          exact ih.1
+
+/-- the tool with these Go types and own schemas (what it enforces does not matter to the monitor) -/
+def ToolD.ofOwn (ity oty : GoTy) (isch : Schema) (osch : Option Schema) : ToolD :=
+  { ity, oty, isch, osch, eisch := isch, eosch := osch }
+
+theorem monitor_ofOwn (td : ToolD) (ci : CallIn) (o : Obs) :
+    monitor td ci o = monitor (ToolD.ofOwn td.ity td.oty td.isch td.osch) ci o := rfl
+
+theorem mkCall_ofOwn (td : ToolD) (c : CallEv) : mkCall td c = mkCall (ToolD.ofOwn td.ity td.oty td.isch td.osch) c := rfl
+
+def Clause.isLib : Clause → Bool
+  | .libIn _ _ => true
+  | .libOut _ _ => true
+  | _ => false
+
+theorem judgeCall_clause {d : ToolD} {ci : CallIn} {o : Obs} {lib olib : Option Bool} {cl : Clause}
+    (h : judgeCall d ci o lib olib = some cl) (hl : cl.isLib = false) : monitor d ci o = some cl := by
+  unfold judgeCall at h
+  split at h
+  · cases h; cases hl
+  · split at h
+    · cases h; cases hl
+    · exact h
+
+/-- **sound_trace.** After ANY list of records, a C16 clause raised on a `call` record means: the records
+book a tool under the addressed name (the named one, else the one added last) — the most recent `tool`
+record of that name answered `ok` on the current server — and the observation violates the property for
+the call read over that tool's Go types and own schemas. -/
+theorem sound_trace (tr : List Rec) (name : Option String) (c : CallEv) (o : Obs) (lib olib : Option Bool) (cl : Clause)
+    (h : (mstep (runState {} tr) (.call name c o lib olib)).2 = some cl) (hl : cl.isLib = false) :
+    ∃ n ity oty isch osch ci, (name <|> lastBooked tr) = some n ∧ booked tr n = some (ity, oty, isch, osch) ∧
+      mkCall (ToolD.ofOwn ity oty isch osch) c = some ci ∧ ci.Scripted ∧
+      monitor (ToolD.ofOwn ity oty isch osch) ci o = some cl ∧ ¬ P_C16 (ToolD.ofOwn ity oty isch osch) ci o := by
+  have hb := fun n => tys_booked tr.reverse n
+  simp only [List.reverse_reverse] at hb
+  simp only [mstep] at h
+  cases hc : (runState {} tr).callee name with
+  | none => simp [hc] at h
+  | some td =>
+    simp only [hc] at h
+    cases hm : mkCall td c with
+    | none => simp [hm] at h
+    | some ci =>
+      simp only [hm] at h
+      have hmon := judgeCall_clause h hl
+      unfold MState.callee at hc
+      cases hn : (name <|> (runState {} tr).last) with
+      | none => simp [hn] at hc
+      | some n =>
+        simp only [hn] at hc
+        have hc' : (runState {} tr).toolD n = some td := hc
+        unfold MState.toolD at hc'
+        cases hw : (runState {} tr).world.tools.find? (·.1 == n) with
+        | none => simp [hw] at hc'
+        | some y =>
+          cases ht : (runState {} tr).tys.find? (·.1 == n) with
+          | none => simp [hw, ht] at hc'
+          | some x =>
+            obtain ⟨xn, xi, xo, xis, xos⟩ := x
+            obtain ⟨yn, yd, ye⟩ := y
+            simp only [hw, ht, Option.some.injEq] at hc'
+            subst hc'
+            refine ⟨n, xi, xo, xis, xos, ci, ?_, ?_, ?_, mkCall_scripted hm, ?_, ?_⟩
+            · rw [← hn, (hb n).2]; rfl
+            · have := (hb n).1
+              rw [ht] at this
+              exact this.symm
+            · rw [← hm]; rfl
+            · rw [← hmon]; rfl
+            · exact monitor_sound _ ci o cl (by rw [← hmon]; rfl)
+
+/-- a clause raised on a `tool` record is one of the two published-schema clauses, raised by `pubClause` on
+what tools/list advertised against the tool's own schemas (in any state: no history is involved) -/
+theorem sound_trace_tool (d : MState) (t : ToolEv) (o : ToolObs) (cl : Clause)
+    (h : (mstep d (.tool t o)).2 = some cl) :
+    ∃ pi po, o = .ok pi po ∧ pubClause t.ownIn t.ownOut pi po = some cl ∧
+      ((cl = .pubIn ∧ ¬ P_published_in t.ownIn pi) ∨ (cl = .pubOut ∧ ¬ P_published_out t.ownOut po)) := by
+  simp only [mstep, MState.regTool] at h
+  split at h
+  · rename_i d' v heq
+    split at heq
+    · cases heq
+    · cases o with
+      | other => simp only [Prod.mk.injEq, ToolOut.expected.injEq] at heq; obtain ⟨_, rfl⟩ := heq; cases h
+      | ok pi po =>
+        simp only [] at heq
+        cases hp : pubClause t.ownIn t.ownOut pi po with
+        | none => simp [hp] at heq
+        | some c =>
+          simp only [hp, Prod.mk.injEq, ToolOut.expected.injEq] at heq
+          obtain ⟨_, rfl⟩ := heq
+          cases h
+          refine ⟨pi, po, rfl, hp, ?_⟩
+          have hc : cl = .pubIn ∨ cl = .pubOut := by
+            unfold pubClause at hp
+            split at hp
+            · cases hp
+            · split at hp <;> cases hp <;> simp
+          rcases hc with rfl | rfl
+          · exact .inl ⟨rfl, sound_pubIn _ _ _ _ hp⟩
+          · exact .inr ⟨rfl, sound_pubOut _ _ _ _ hp⟩
+  · cases h
+
+/-! ## non-vacuity: every clause fires on some observation (and the good observation is accepted) -/
+
+section Witness
+
+/-- In = Out = `struct{ N int64 "n"; C string "c" }` under `wSchema` (n required, c defaults to "x") -/
+def fD : ToolD := { ity := wTy, oty := wTy, isch := wSchema, osch := some wSchema, eisch := wSchema, eosch := some wSchema }
+def fOut : JVal := .obj [("n", .num (.ofInt 7)), ("c", .str "x")]
+/-- arguments `{"n": n}`; the handler returns `{"n":7,"c":"x"}` and no content -/
+def fCall (n : Int) : CallIn := { args := wArgs n, h := fun _ => { out := .json fOut }, hout := some fOut, argsNull := false }
+/-- what the property demands of `fCall 7` -/
+def fGood : Obs := { inv := some true, seen := some fOut, res := .ok, sc := some fOut, content := [.sc] }
+/-- a proper error answer -/
+def fErr : Obs := { inv := some false, seen := none, res := .toolerr, sc := none, content := [.err] }
+
+def isClause (c : Option Clause) (f : Clause → Bool) : Bool := match c with | some x => f x | none => false
+
+example : (monitor fD (fCall 7) fGood).isNone = true := by decide
+/-- members in another order and `7.0` for `7`: the same JSON value -/
+example : (monitor fD (fCall 7) { fGood with seen := some (.obj [("c", .str "x"), ("n", .num ⟨70, 1⟩)]) }).isNone = true := by decide
+example : isClause (monitor fD (fCall 7) { fGood with res := .panic }) (fun | .panicked => true | _ => false) = true := by decide
+example : isClause (monitor fD { fCall 7 with args := .val .null, argsNull := true } { fGood with res := .panic })
+    (fun | .f12Panic => true | _ => false) = true := by decide
+example : isClause (monitor fD (fCall 7) { fGood with sc := none }) (fun | .f16 => true | _ => false) = true := by decide
+example : isClause (monitor fD (fCall 7) { fGood with inv := some false }) (fun | .notInvoked => true | _ => false) = true := by decide
+/-- `{}` lacks the required `n` -/
+example : isClause (monitor fD { fCall 7 with args := .val (.obj []) } fGood) (fun | .invokedInvalid => true | _ => false) = true := by decide
+example : (monitor fD { fCall 7 with args := .val (.obj []) } fErr).isNone = true := by decide
+example : isClause (monitor fD { fCall 7 with args := .val (.obj []) } { fErr with res := .rpcerr })
+    (fun | .invalidNoToolErr => true | _ => false) = true := by decide
+example : isClause (monitor fD { fCall 7 with args := .val (.obj []) } { fErr with content := [.err, .err] })
+    (fun | .errContent => true | _ => false) = true := by decide
+/-- the default of `c` is missing from what the handler saw -/
+example : isClause (monitor fD (fCall 7) { fGood with seen := some (.obj [("n", .num (.ofInt 7)), ("c", .str "")]) })
+    (fun | .seesDefaulted => true | _ => false) = true := by decide
+example : isClause (monitor fD (fCall 7) { fGood with res := .toolerr }) (fun | .validOutRefused => true | _ => false) = true := by decide
+example : isClause (monitor fD (fCall 7) { fGood with sc := some (.obj [("n", .num (.ofInt 7))]) })
+    (fun | .scDiffers => true | _ => false) = true := by decide
+example : isClause (monitor fD (fCall 7) { fGood with content := [] }) (fun | .contentDiffers => true | _ => false) = true := by decide
+/-- the handler returns `{}` (no `n`): a protocol error is demanded -/
+def fBadOut : CallIn := { fCall 7 with h := fun _ => { out := .json (.obj []) }, hout := some (.obj []) }
+example : (monitor fD fBadOut { fGood with res := .rpcerr, sc := none, content := [] }).isNone = true := by decide
+example : isClause (monitor fD fBadOut { fGood with sc := some (.obj [("c", .str "x")]) })
+    (fun | .invalidOutReturned => true | _ => false) = true := by decide
+example : isClause (monitor fD fBadOut { fGood with res := .toolerr, sc := none, content := [.err] })
+    (fun | .kindDiffers => true | _ => false) = true := by decide
+/-- a `*jsonrpc.Error` from the handler answered by a tool error: the error contract, not "output … returned" -/
+example : isClause (monitor fD { fCall 7 with h := fun _ => { err := some .rpc } } { fGood with res := .toolerr, sc := none, content := [.err] })
+    (fun | .kindDiffers => true | _ => false) = true := by decide
+/-- Out = `*struct{…}`, the handler returns a nil pointer: the zero value `{"n":0,"c":""}` is demanded -/
+def fPtrD : ToolD := { fD with oty := .ptr wTy }
+def fNil : CallIn := { fCall 7 with h := fun _ => { out := .nilPtr }, hout := none }
+def fZero : JVal := .obj [("n", .num (.ofInt 0)), ("c", .str "")]
+example : (monitor fPtrD fNil { fGood with sc := some fZero }).isNone = true := by decide
+example : isClause (monitor fPtrD fNil { fGood with res := .rpcerr, sc := none, content := [] })
+    (fun | .nilPtr => true | _ => false) = true := by decide
+/-- 2^53+1 arrives as 2^53 -/
+def fBigOut : JVal := .obj [("n", .num (.ofInt 9007199254740993)), ("c", .str "x")]
+def fBigRound : JVal := .obj [("n", .num (.ofInt 9007199254740992)), ("c", .str "x")]
+def fBig : CallIn := { fCall 9007199254740993 with h := fun _ => { out := .json fBigOut }, hout := some fBigOut }
+example : (monitor fD fBig { fGood with seen := some fBigOut, sc := some fBigOut }).isNone = true := by decide
+example : isClause (monitor fD fBig { fGood with seen := some fBigRound, sc := some fBigOut })
+    (fun | .recvExact "n" a b => a.toInt == 9007199254740993 && b.toInt == 9007199254740992 | _ => false) = true := by decide
+example : isClause (monitor fD fBig { fGood with seen := some fBigOut, sc := some fBigRound })
+    (fun | .carryExact "n" a b => a.toInt == 9007199254740993 && b.toInt == 9007199254740992 | _ => false) = true := by decide
+/-- `n ≤ 2^53`: 2^53+1 is invalid, its float64 is valid — the observation of the unrepaired wrapper -/
+def fMaxSchema : Schema :=
+  .mk { ty := [.object], required := ["n"] }
+    [("n", .mk { ty := [.integer], maximum := some (.ofInt 9007199254740992) } [] none none)] none none
+def fMaxD : ToolD := { fD with isch := fMaxSchema, eisch := fMaxSchema, osch := none, eosch := none, ity := uTy, oty := .any }
+example : isClause (monitor fMaxD fBig (obsOf (call (refEnv lossy53) fMaxD.tool fBig.h fBig.args)))
+    (fun | .f9 => true | _ => false) = true := by decide
+/-- a uint64 member: 2^64-1 is valid; the answer of a decode that keeps only int64 exact -/
+def fU : ToolD := { ity := uTy, oty := .any, isch := uSchema, osch := none, eisch := uSchema, eosch := none }
+def fUCall : CallIn := { fCall 18446744073709551615 with h := fun _ => {}, hout := none }
+example : isClause (monitor fU fUCall (obsOf (call (refEnv lossy63) fU.tool fUCall.h fUCall.args)))
+    (fun | .u64Refused => true | _ => false) = true := by decide
+/-- null arguments under a schema with only a default: the handler must see `{"c":"x"}`, not null -/
+def fDefSchema : Schema :=
+  .mk { ty := [.object] } [("c", .mk { ty := [.string], dflt := some (.str "x") } [] none none)] none none
+def fDefD : ToolD := { ity := .any, oty := .any, isch := fDefSchema, osch := none, eisch := fDefSchema, eosch := none }
+def fNullCall : CallIn := { args := .val .null, h := fun _ => {}, hout := none, argsNull := true }
+example : (monitor fDefD fNullCall { inv := some true, seen := some (.obj [("c", .str "x")]), res := .ok, sc := none, content := [] }).isNone = true := by decide
+example : isClause (monitor fDefD fNullCall { inv := some true, seen := some .null, res := .ok, sc := none, content := [] })
+    (fun | .f12NullSeen => true | _ => false) = true := by decide
+/-- `struct{ MaxItems int64 "maxItems" }` under an open schema: the member `maxitems` must be dropped -/
+def fMemSchema : Schema := .mk { ty := [.object] } [("maxItems", .mk { ty := [.integer] } [] none none)] none none
+def fMemD : ToolD := { ity := .struct [("maxItems", false, .int64)], oty := .any, isch := fMemSchema, osch := none, eisch := fMemSchema, eosch := none }
+def fMemCall : CallIn :=
+  { args := .val (.obj [("maxItems", .num (.ofInt 1)), ("maxitems", .num (.ofInt 2))]), h := fun _ => {}, hout := none, argsNull := false }
+example : (monitor fMemD fMemCall { inv := some true, seen := some (.obj [("maxItems", .num (.ofInt 1))]), res := .ok, sc := none, content := [] }).isNone = true := by decide
+example : isClause (monitor fMemD fMemCall { inv := some true, seen := some (.obj [("maxItems", .num (.ofInt 2))]), res := .ok, sc := none, content := [] })
+    (fun | .members "maxItems" => true | _ => false) = true := by decide
+
+/-! ### the two wrong clause picks that the soundness proofs exposed (repaired in `monContract`)
+
+Before, the chain printed `invalid_output_is_error_not_result` whenever the demanded kind was a protocol
+error and the observed kind differed — also when the handler had returned a `*jsonrpc.Error` (there is no
+output then) or when the observed result was itself an error; and `text_fallback_iff_no_content` whenever
+the content differed — also on error results. In both shapes the predicate of the printed clause HOLDS of
+the observation (the examples below), so the clause was not sound. Now the first is printed only for a
+successful result of a handler that returned no error (otherwise: the error-contract clause), the second
+only when a success is demanded (otherwise: the error-content clause). -/
+
+def fRpc : CallIn := { fCall 7 with h := fun _ => { err := some .rpc } }
+example : P_invalid_output_is_error fD fRpc { fGood with res := .toolerr, sc := none, content := [.err] } := by
+  intro y j _ he _ _
+  simp [fRpc] at he
+example : isClause (monitor fD fRpc { fGood with res := .toolerr, sc := none, content := [.err] })
+    (fun | .kindDiffers => true | _ => false) = true := by decide
+example : P_text_fallback fD { fCall 7 with args := .val (.obj []) } { fErr with content := [.err, .err] } := by
+  intro hr; simp [fErr] at hr
+
+end Witness
+
 end TypedTool
